@@ -96,6 +96,19 @@ Definition spec_command_ids : list N := [
 (* a response carries the id of its request with bit 31 set; generic_nack (0x80000000) answers nothing in particular *)
 Definition resp_id (req : N) : N := req + 0x80000000.
 
+(* Which operations the user-data-header indicator applies to, and which carry a short message without a data_coding —
+   read off the syntax tables above (NOT off the code): the UDH indicator (esm_class bit 6, section 4.7.12) governs the
+   short_message of an operation that has both parameters (submit_sm, deliver_sm, submit_multi; data_sm has esm_class but no
+   short_message; replace_sm has short_message but neither esm_class nor data_coding). *)
+Definition op_has_name (o : op) (n : string) : bool := existsb (fun p => String.eqb (fst p) n) (snd o).
+Definition op_has_short (o : op) : bool := existsb (fun p => match snd p with PShort => true | _ => false end) (snd o).
+Fixpoint find_op0 (ops : list op) (id : N) : option op :=
+  match ops with [] => None | o :: r => if fst (fst o) =? id then Some o else find_op0 r id end.
+Definition spec_has_udhi (id : N) : bool :=
+  match find_op0 smpp5_ops id with Some o => op_has_name o "esm_class" && op_has_short o | None => false end.
+Definition spec_is_replace (id : N) : bool :=
+  match find_op0 smpp5_ops id with Some o => op_has_short o && negb (op_has_name o "data_coding") | None => false end.
+
 Fixpoint find_op (ops : list op) (id : N) : option op :=
   match ops with
   | [] => None
